@@ -72,7 +72,7 @@ def run_variant(pid: str, v: dict, base: Path, timeout: int = 900) -> dict:
                 except SyntaxError as ex:
                     return {"name": v["name"], "status": "inapplicable", "why": f"variant does not compile: {ex}"}
         env = dict(os.environ)
-        env.update(VERIF_REPO=str(repo), VERIF_OUT=str(tmp / "out"), VERIF_EVIDENCE_DIR=str(tmp / "ev"), VERIF_NO_SELFTEST="1")
+        env.update(VERIF_REPO=str(repo), VERIF_OUT=str(tmp / "out"), VERIF_EVIDENCE_DIR=str(tmp / "ev"), VERIF_NO_SELFTEST="1", VERIF_NO_DELEGATE="1")
         p = subprocess.run([sys.executable, str(core.VERIF / "check.py"), pid, "--tier", "quick"], capture_output=True, text=True, env=env, timeout=timeout)
         out = p.stdout + p.stderr
         fired = []
